@@ -63,7 +63,7 @@ def mech_of(ev: Event, parts: list[str]) -> str:
     """Mechanism key of a partial-effect raise (a predicate over the witness, no random values)."""
     rs = reason(ev.exc)
     slm = ev.post["flags"]["slm_dmm"] is not None
-    if ev.name in EOM_RETARGET and rs == "max-seq-duration":
+    if ev.name in EOM_RETARGET and rs in ("max-seq-duration", "max-duration"):
         # the wait-for-fall delay / EOM block end is committed before the device maximum is checked
         return "partial:eom-or-retarget-over-max-sequence-duration"
     # the automatic SLM-mask pulse on the DMM was *refused* for a documented reason (not: crashed)
@@ -141,8 +141,20 @@ class AtomicMonitor(Monitor):
                 ctx.violation("replica-differs", f"{tag} differs from the original: {d[:3]}", f"replica:{tag}:differs")
             if state_key(snapshot(seq)) != state_key(base):
                 ctx.violation("read-only", f"{tag} changed the original sequence", f"readonly:{tag}")
+            # the replica must be independent: changing it must not change the original
+            try:
+                other.declare_variable("replica_only_var")
+                if other.declared_channels and not other.is_measured():
+                    pass
+            except Exception:
+                pass
+            ctx.count("replica_independence_checks")
+            if state_key(snapshot(seq)) != state_key(base):
+                ctx.violation("replica-shares-state", f"declaring a variable on the {tag} replica changed the original: "
+                              f"{diff(base, snapshot(seq))[:3]}", f"replica-shares-state:{tag}")
 
-        compare("build", lambda: seq.build() if not seq.is_register_mappable() else None) \
+        unused = {n: ([0] * v.size if v.size > 1 else 0) for n, v in seq.declared_variables.items()}
+        compare("build", lambda: seq.build(**unused) if not seq.is_register_mappable() else None) \
             if not seq.is_register_mappable() else None
         if not seq.is_register_mappable():
             compare("switch_register", lambda: seq.switch_register(seq.register))
